@@ -39,7 +39,8 @@ def make_wave(kind, gpts, extent, tilt, rng, energy=100e3):
         kcut = min(np.abs(kx).max(), np.abs(ky).max()) * 0.55       # well inside the 2/3 antialias aperture (taper included)
         X[k > kcut] = 0
         x = np.fft.ifft2(X)
-    x = (x / np.sqrt((np.abs(x) ** 2).sum())).astype(np.complex64)
+    from abtem.core.utils import get_dtype
+    x = (x / np.sqrt((np.abs(x) ** 2).sum())).astype(get_dtype(complex=True))       # follows the precision the case runs under
     md = {"base_tilt_x": tilt[0], "base_tilt_y": tilt[1]}
     return abtem.Waves(x, energy=energy, extent=extent, metadata=md)
 
@@ -71,7 +72,7 @@ def run_case(c, rng, double=False):
     from abtem.multislice import FourierMultislice, FresnelPropagator
     gpts, extent = (24, 20), ((6.0, 6.0) if (c["slices"] + c["order"]) % 2 else (6.0, 8.75))     # square and rectangular cells
     ev = {"e": "Result", "kind": "c04", "raised": False, "vacuum": c["pot"] == "vacuum", "band_limited": bool(c["conserved"] or c["reversible"]),
-          "conserved_ppb": 0, "reverse_ppb": 0, "double": double}
+          "conserved_ppb": 0, "reverse_ppb": 0, "double": double, "reuse_gain_ppb": 0}
     sink = Sink()
     try:
         with abtem.config.set({"precision": "float64" if double else "float32"}):
@@ -92,6 +93,18 @@ def run_case(c, rng, double=False):
                 fwd = p.propagate(wave.copy(), thickness=3.7, order=c["order"])
                 back = FresnelPropagator().propagate(fwd, thickness=-3.7, order=c["order"])
                 ev["reverse_ppb"] = ppb(relerr(arr(back), arr(wave)))
+                # one propagator object, two different waves of the same shape propagated in place one after the other
+                q = FresnelPropagator()
+                first = wave.copy()
+                q.propagate(first, thickness=3.7, in_place=True, order=c["order"])
+                faint = wave.copy()
+                faint._array = (0.1 * np.roll(arr(wave), (3, -2), axis=(-2, -1))).astype(arr(wave).dtype)
+                before = arr(faint).copy()
+                q.propagate(faint, thickness=3.7, in_place=True, order=c["order"])
+                i_before, i_after = float((np.abs(before) ** 2).sum()), float((np.abs(arr(faint)) ** 2).sum())
+                ev["reuse_gain_ppb"] = ppb(max(i_after - i_before, 0.0) / i_before)
+                back2 = FresnelPropagator().propagate(faint, thickness=-3.7, order=c["order"])
+                ev["reverse_ppb"] = max(ev["reverse_ppb"], ppb(relerr(arr(back2), before)))
     except Exception as ex:
         ev["raised"] = True
         ev["exc"] = f"{type(ex).__name__}: {ex}"[:300]
@@ -115,7 +128,7 @@ def run(ctx: Ctx):
     quick = ctx.tier == "quick"
     ctx.rule = ("scenarios = potential (vacuum, atoms, random non-negative, random with negative values) x wave (plane, probe, random "
                 "band-limited, random not band-limited) x tilt (none, +, -) x propagator order (1, 2) x slices 1..N x equal/unequal "
-                "slicing, all enumerated by TLC; every scenario is run (single precision; every 4th also in double precision); "
+                "slicing, all enumerated by TLC; every scenario is run (single precision; every 4th and every second-order vacuum scenario also in double precision, held to 1e-7); "
                 "non-trivial = every scenario")
     r = ctx.design_check("PropagationModel", cfg_text=open(tlc.SPEC_DIR + "/PropagationModel.cfg").read().replace("MaxSlices = 3", f"MaxSlices = {2 if quick else 5}"),
                          label="scenario enumeration", workers=1)
@@ -127,7 +140,7 @@ def run(ctx: Ctx):
     for j, c in enumerate(cases):
         items.append((c, run_case(c, rng)))
         ctx.case(json.dumps(c, sort_keys=True))
-        if j % 4 == 0:
+        if j % 4 == 0 or (c["order"] == 2 and c["pot"] == "vacuum"):
             items.append((dict(c, double=True), run_case(c, rng, double=True)))
             ctx.case("f64:" + json.dumps(c, sort_keys=True))
     ctx.exhaustive = True
